@@ -14,6 +14,7 @@ import (
 	"encoding/base64"
 	"encoding/binary"
 	"fmt"
+	"hash/fnv"
 	"io"
 	"net"
 	"net/http"
@@ -42,6 +43,26 @@ func (s *vfC10Stub) Name() string { return "vfupstream" }
 func vfC10Answer(name string) []dns.RR {
 	hdr := dns.RR_Header{Name: name, Rrtype: dns.TypeTXT, Class: dns.ClassINET, Ttl: 300}
 	lower := strings.ToLower(name)
+	if strings.HasPrefix(lower, "sz") && len(lower) > 6 {
+		// "szNNNN-...": one TXT RRset whose strings add up to NNNN octets, so that a client can steer reply sizes
+		total := 0
+		for _, c := range lower[2:6] {
+			if c < '0' || c > '9' {
+				total = -1
+				break
+			}
+			total = total*10 + int(c-'0')
+		}
+		if total > 0 {
+			var txt []string
+			for total > 0 {
+				k := min(total, 255)
+				txt = append(txt, strings.Repeat("s", k))
+				total -= k
+			}
+			return []dns.RR{&dns.TXT{Hdr: hdr, Txt: txt}}
+		}
+	}
 	n := 1
 	if strings.HasPrefix(lower, "big") {
 		n = 45 // 45 strings of ~210 octets: about 9.5 KB
@@ -93,6 +114,18 @@ type vfC10Params struct {
 	HitRing  int
 }
 
+// vfC10Cookie: the client cookie (hex) a question for name carries, "" for none - a function of the name, so that
+// every reply can be matched against the cookie of the very question it answers.
+func vfC10Cookie(name string) string {
+	h := fnv.New64a()
+	_, _ = h.Write([]byte(strings.ToLower(name)))
+	v := h.Sum64()
+	if v%3 == 0 {
+		return ""
+	}
+	return fmt.Sprintf("%016x", v)
+}
+
 // vfC10Late recognises the one late reply to a question this client stopped waiting for: same ID, same question,
 // exactly that question's answer. It is the client's own reply, not a leftover of another client's.
 func vfC10Late(raw []byte, outstanding, abandoned map[uint16]string) (uint16, bool) {
@@ -129,6 +162,21 @@ func vfC10Check(who string, raw []byte, outstanding map[uint16]string) (uint16, 
 	if !strings.EqualFold(m.Question[0].Name, want) {
 		return 0, fmt.Sprintf("%s asked %s with id %d and received a reply about %s", who, want, m.Id, m.Question[0].Name)
 	}
+	// the reply's COOKIE option, if any, starts with the client cookie this very question carried - and there is none
+	// when the question carried none (a cookie is eight octets of one client's query)
+	wantCookie := vfC10Cookie(want)
+	if opt := m.IsEdns0(); opt != nil {
+		for _, o := range opt.Option {
+			if ck, ok := o.(*dns.EDNS0_COOKIE); ok {
+				if wantCookie == "" {
+					return 0, fmt.Sprintf("%s asked %s without a cookie and received the COOKIE option %s", who, want, ck.Cookie)
+				}
+				if !strings.HasPrefix(strings.ToLower(ck.Cookie), wantCookie) {
+					return 0, fmt.Sprintf("%s asked %s with client cookie %s and received the COOKIE option %s", who, want, wantCookie, ck.Cookie)
+				}
+			}
+		}
+	}
 	if m.Rcode == dns.RcodeServerFailure {
 		return m.Id, "" // panic names: the recovery handler's own SERVFAIL
 	}
@@ -156,20 +204,14 @@ func vfC10Run(t *testing.T, dir string, p vfC10Params) (violation string, stats 
 	cfg := vfBaseConfig(dir)
 	cfg.IngressWorkers = p.Workers
 	cfg.RateLimit, cfg.ClientRateLimit = 0, 0
+	cfg.CookieSecret = "6c6f6f6b61686172646c6f6f6b6168617264"
 	stub := &vfC10Stub{}
 	k, err := vfStartSock(cfg, stub)
 	if err != nil {
 		t.Fatalf("listeners: %v", err)
 	}
 	defer k.Stop()
-	pack := func(id uint16, name string) []byte {
-		m := new(dns.Msg)
-		m.SetQuestion(name, dns.TypeTXT)
-		m.Id = id
-		m.SetEdns0(4096, false)
-		b, _ := m.Pack()
-		return b
-	}
+	pack := vfC10Pack
 	raddr, _ := net.ResolveUDPAddr("udp", k.udpAddr)
 	// warm the cache: every client's ring of "hit" names, so that later they are answered on the reader
 	for i := 0; i < p.Clients; i++ {
@@ -338,12 +380,142 @@ func vfC10Run(t *testing.T, dir string, p vfC10Params) (violation string, stats 
 			}
 		}(j)
 	}
+	// one more TCP client aims pipelined bursts of cached replies at the edges of the stream's staging buffer: the
+	// replies staged so far plus the next one come to exactly the buffer size, or one or two octets either side of it
+	var boundary atomic.Int64
+	if p.TCPConns > 0 {
+		wg.Add(1)
+		go func() {
+			defer wg.Done()
+			vfC10BoundaryBursts(k.tcpAddr, 6, report, &boundary, &slowStreams)
+		}()
+	}
 	wg.Wait()
-	stats = map[string]int64{"udp-answered": answered.Load(), "udp-unanswered": unanswered.Load(), "udp-hit-answers": inlineHits.Load(), "tcp-frames": frames.Load(), "tcp-read-timeouts": slowStreams.Load(), "handler-calls": stub.calls.Load() - warm}
+	stats = map[string]int64{"tcp-boundary-bursts": boundary.Load(), "udp-answered": answered.Load(), "udp-unanswered": unanswered.Load(), "udp-hit-answers": inlineHits.Load(), "tcp-frames": frames.Load(), "tcp-read-timeouts": slowStreams.Load(), "handler-calls": stub.calls.Load() - warm}
 	if v := viol.Load(); v != nil {
 		violation = *v
 	}
 	return
+}
+
+// vfC10BoundaryBursts: see the call site. Reply sizes are steered through "szNNNN-" names and measured, not computed:
+// every name is asked once on a side connection first (which also caches it, so that the burst's replies are staged
+// together), and the frame length that comes back is the length the burst will see.
+func vfC10BoundaryBursts(addr string, rounds int, report func(string, ...any), done, slow *atomic.Int64) {
+	const drain = 8192
+	side, err := net.DialTimeout("tcp", addr, 2*time.Second)
+	if err != nil {
+		return
+	}
+	defer side.Close()
+	c, err := net.DialTimeout("tcp", addr, 2*time.Second)
+	if err != nil {
+		return
+	}
+	defer c.Close()
+	exchange := func(conn net.Conn, id uint16, name string) (int, bool) {
+		if _, err := conn.Write(vfC10Frame(vfC10Pack(id, name))); err != nil {
+			return 0, false
+		}
+		_ = conn.SetReadDeadline(time.Now().Add(2 * time.Second))
+		var l [2]byte
+		if _, err := io.ReadFull(conn, l[:]); err != nil {
+			return 0, false
+		}
+		body := make([]byte, binary.BigEndian.Uint16(l[:]))
+		if _, err := io.ReadFull(conn, body); err != nil {
+			return 0, false
+		}
+		return len(body), true
+	}
+	lens := map[string]int{}
+	measure := func(name string) (int, bool) {
+		if n, ok := lens[name]; ok {
+			return n, true
+		}
+		n, ok := exchange(side, 1, name)
+		if ok {
+			lens[name] = n
+		}
+		return n, ok
+	}
+	seq := 0
+	for r := 0; r < rounds; r++ {
+		// fillers: a few cached replies of assorted sizes, well short of the buffer
+		var names []string
+		held := 0
+		nf := 2 + r%4
+		for f := 0; f < nf; f++ {
+			name := fmt.Sprintf("sz%04d-f%d.bb.test.", 300+((r*7+f*13)%9)*150, f)
+			n, ok := measure(name)
+			if !ok {
+				return
+			}
+			if held+2+n > drain-400 {
+				break
+			}
+			names = append(names, name)
+			held += 2 + n
+		}
+		// the last reply: held + its length lands on drain+delta
+		delta := []int{0, -1, -2, 1, 2, -3}[r%6]
+		want := drain + delta - held
+		guess := want - 60
+		var last string
+		for try := 0; try < 6 && last == ""; try++ {
+			if guess < 1 || guess > 9999 {
+				break
+			}
+			seq++
+			name := fmt.Sprintf("sz%04d-l%d.bb.test.", guess, seq)
+			n, ok := measure(name)
+			if !ok {
+				return
+			}
+			if n == want {
+				last = name
+			} else {
+				guess += want - n
+			}
+		}
+		if last == "" {
+			continue
+		}
+		names = append(names, last)
+		var burst []byte
+		for q, name := range names {
+			burst = append(burst, vfC10Frame(vfC10Pack(uint16(3000+q), name))...)
+		}
+		if _, err := c.Write(burst); err != nil {
+			return
+		}
+		for q, name := range names {
+			_ = c.SetReadDeadline(time.Now().Add(2 * time.Second))
+			var l [2]byte
+			if _, err := io.ReadFull(c, l[:]); err != nil {
+				if ne, ok := err.(net.Error); ok && ne.Timeout() {
+					slow.Add(1)
+					return
+				}
+				report("boundary burst %d (staged %d octets, then a %d-octet reply: buffer size %+d): the stream ended before reply %d of %d (%v)", r, held, want, delta, q, len(names), err)
+				return
+			}
+			body := make([]byte, binary.BigEndian.Uint16(l[:]))
+			if _, err := io.ReadFull(c, body); err != nil {
+				if ne, ok := err.(net.Error); ok && ne.Timeout() {
+					report("boundary burst %d (staged %d octets, then a %d-octet reply: buffer size %+d): reply %d of %d announces %d octets and fewer arrived", r, held, want, delta, q, len(names), len(body))
+					return
+				}
+				report("boundary burst %d: reply %d is cut short (%v)", r, q, err)
+				return
+			}
+			if _, bad := vfC10Check("TCP boundary client", body, map[uint16]string{uint16(3000 + q): name}); bad != "" {
+				report("boundary burst %d (staged %d octets, then a %d-octet reply: buffer size %+d), position %d of %d: %s", r, held, want, delta, q, len(names), bad)
+				return
+			}
+		}
+		done.Add(1)
+	}
 }
 
 func TestVerifC10Sockets(t *testing.T) {
